@@ -26,11 +26,11 @@ ASSUMPTIONS = [
     "Thespian semantics as rendered in sim/actors.py, including: a listener registered with notifyOnSystemRegistrationChanges is told about already registered remote systems, "
     "a remote system that leaves produces ActorSystemConventionUpdate(remoteAdded=False) for listeners and ChildActorExited for parents of actors that lived there",
     "every expected daemon eventually joins unless the fault says otherwise (a daemon that never appears makes Rally wait by design)",
-    "launcher / provisioner internals are below the observation point of the property",
+    "provisioner internals and the launcher's start are below the observation point of the property (stand-ins); the launcher's stop is the real ProcessLauncher.stop, run on scripted psutil processes and recording telemetry stand-ins",
     "after a reported failure race control lets its actors exit (ActorExitRequest to the mechanic), as racecontrol.race() does",
 ]
 BUDGET = {"quick": 7000, "thorough": 40000}
-REQUIRED_CLASSES = {"remote-host": 2000, "acks-out-of-order": 300, "fired:start-fails": 300, "fired:daemon-leaves": 100, "external": 400, "multi-node-host": 1500}
+REQUIRED_CLASSES = {"dead-or-hanging-node-next-to-a-live-one": 300, "remote-host": 2000, "acks-out-of-order": 300, "fired:start-fails": 300, "fired:daemon-leaves": 100, "external": 400, "multi-node-host": 1500}
 
 
 @st.composite
